@@ -167,7 +167,8 @@ def reapWait (pid : Nat) : Nat → M (Option (Option Nat))
 def spinLimit : Nat := 20000
 
 /-- `reap_process` after the entry has been popped: wait for the process (unless the status is
-    already known), publish the `reap` event, `Process.stop()` -/
+    already known), publish the `reap` event, `Process.stop()`, then the `after_reap` hook (its result
+    is ignored) -/
 def reapTail (uid pid : Nat) (status : Option Nat) : M Unit := do
   let st : Option (Option Nat) ← match status with
     | some s => pure (some (some s))
@@ -179,15 +180,21 @@ def reapTail (uid pid : Nat) (status : Option Nat) : M Unit := do
     let o ← getO pid
     notify uid "reap" (some pid) (match o.rc with | some c => toString c | none => "None")
     objStop pid
+    let _ ← callHook uid "after_reap"
+    pure ()
   | some (some s) =>
     let ps ← procStatus pid
     if isDead ps then objStop pid
     notify uid "reap" (some pid) (toString (exitCodeOf s))
+    let _ ← callHook uid "after_reap"
+    pure ()
 
-/-- `Watcher.reap_process(pid, status=None)` (before_reap / after_reap hooks are not scripted) -/
+/-- `Watcher.reap_process(pid, status=None)`: the `before_reap` hook runs after the membership test and
+    before the pop; its result is ignored -/
 def reapProcess (uid pid : Nat) (status : Option Nat) : M Unit := do
   let w ← getW uid
   if !w.pids.contains pid then pure () else
+  let _ ← callHook uid "before_reap"
   popPid uid pid
   reapTail uid pid status
 
